@@ -22,11 +22,11 @@ VARIANTS = [
          [(FL, "            *macros,\n", "")],
          ("C05.3", "Circuit.macros"), P),
     fire("c05-override-after-declared",
-         [(FL, "        if const.name in self.override_dict:\n            # Like a declared value, 4.0 stands for the integer 4\n            return circuitbuilder.as_integer(self.override_dict[const.name])\n        if isinstance(const.value, (int, float)):\n            return const.value\n",
+         [(FL, "        if const.name in self.override_dict:\n            value = self.override_dict[const.name]\n            if isinstance(value, float) and not math.isfinite(value):\n                # Infinity and NaN cannot be written in Jaqal\n                raise JaqalError(f\"Cannot override {const.name} with {value}\")\n            # Like a declared value, 4.0 stands for the integer 4\n            return circuitbuilder.as_integer(value)\n        if isinstance(const.value, (int, float)):\n            return const.value\n",
            "        if isinstance(const.value, (int, float)):\n            return const.value\n        if const.name in self.override_dict:\n            return self.override_dict[const.name]\n")],
          ("C05.2", "override-precedence"), P),
     fire("c05-override-keyed-by-value",
-         [(FL, "        if const.name in self.override_dict:\n            # Like a declared value, 4.0 stands for the integer 4\n            return circuitbuilder.as_integer(self.override_dict[const.name])", "        if const.value in self.override_dict:\n            return self.override_dict[const.value]")],
+         [(FL, "        if const.name in self.override_dict:\n            value = self.override_dict[const.name]\n            if isinstance(value, float) and not math.isfinite(value):\n                # Infinity and NaN cannot be written in Jaqal\n                raise JaqalError(f\"Cannot override {const.name} with {value}\")\n            # Like a declared value, 4.0 stands for the integer 4\n            return circuitbuilder.as_integer(value)", "        if const.value in self.override_dict:\n            return self.override_dict[const.value]")],
          ("C05.2", "override-precedence"), P),
     fire("c05-register-handler-returns-sexpr",
          [(FL, "                return Register(reg.name, new_size)", '                return ["register", reg.name, new_size]')],
@@ -42,11 +42,11 @@ VARIANTS = [
          [(FL, "            *[self.visit(param) for param in gate.parameters.values()],", "            *gate.parameters.values(),")],
          ("C05.1", "GateStatement.parameters"), P),
     silent("c05-get-idiom",
-           [(FL, "        if const.name in self.override_dict:\n            # Like a declared value, 4.0 stands for the integer 4\n            return circuitbuilder.as_integer(self.override_dict[const.name])\n        if isinstance(const.value, (int, float)):\n            return const.value\n        else:\n            # I don't think this can happen\n            raise JaqalError(f\"Constant {const.name} has non-numeric value\")",
-             "        return circuitbuilder.as_integer(self.override_dict.get(const.name, const.value))")], P),
+           [(FL, "        if const.name in self.override_dict:\n            value = self.override_dict[const.name]\n            if isinstance(value, float) and not math.isfinite(value):\n                # Infinity and NaN cannot be written in Jaqal\n                raise JaqalError(f\"Cannot override {const.name} with {value}\")\n            # Like a declared value, 4.0 stands for the integer 4\n            return circuitbuilder.as_integer(value)\n        if isinstance(const.value, (int, float)):\n            return const.value\n        else:\n            # I don't think this can happen\n            raise JaqalError(f\"Constant {const.name} has non-numeric value\")",
+             "        value = self.override_dict.get(const.name, const.value)\n        if isinstance(value, float) and not math.isfinite(value):\n            raise JaqalError(\"not finite\")\n        return circuitbuilder.as_integer(value)")], P),
     silent("c05-not-in-idiom",
-           [(FL, "        if const.name in self.override_dict:\n            # Like a declared value, 4.0 stands for the integer 4\n            return circuitbuilder.as_integer(self.override_dict[const.name])\n        if isinstance(const.value, (int, float)):\n            return const.value\n",
-             "        if const.name not in self.override_dict:\n            if isinstance(const.value, (int, float)):\n                return const.value\n        else:\n            return circuitbuilder.as_integer(self.override_dict[const.name])\n        if False:\n            pass\n")], P),
+           [(FL, "        if const.name in self.override_dict:\n            value = self.override_dict[const.name]\n            if isinstance(value, float) and not math.isfinite(value):\n                # Infinity and NaN cannot be written in Jaqal\n                raise JaqalError(f\"Cannot override {const.name} with {value}\")\n            # Like a declared value, 4.0 stands for the integer 4\n            return circuitbuilder.as_integer(value)\n        if isinstance(const.value, (int, float)):\n            return const.value\n",
+             "        if const.name not in self.override_dict:\n            if isinstance(const.value, (int, float)):\n                return const.value\n        else:\n            value = self.override_dict[const.name]\n            if isinstance(value, float) and not math.isfinite(value):\n                raise JaqalError(\"not finite\")\n            return circuitbuilder.as_integer(value)\n        if False:\n            pass\n")], P),
     silent("c05-helper-for-children",
            [(FL, '        sexpr = [block_type, *[self.visit(stmt) for stmt in block.statements]]\n        return sexpr',
              '        children = []\n        for stmt in block.statements:\n            children.append(self.visit(stmt))\n        sexpr = [block_type]\n        sexpr.extend(children)\n        return sexpr')], P),
@@ -55,9 +55,15 @@ VARIANTS = [
 VARIANTS += [
     # reverting fix 64198ea
     fire("c05-override-not-normalised",
-         [(FL, "            return circuitbuilder.as_integer(self.override_dict[const.name])", "            return self.override_dict[const.name]")],
+         [(FL, "            return circuitbuilder.as_integer(value)", "            return value")],
          ("C05.10", "LetFiller.resolve_constant:override-normalised"), ("C05",)),
     fire("c05-override-cast-to-int",
-         [(FL, "            return circuitbuilder.as_integer(self.override_dict[const.name])", "            return int(self.override_dict[const.name])")],
+         [(FL, "            return circuitbuilder.as_integer(value)", "            return int(value)")],
          ("C05.2", "LetFiller.resolve_constant:override-precedence"), ("C05",)),
+]
+VARIANTS += [
+    # reverting fix 5ba19ee
+    fire("c05-override-non-finite-accepted",
+         [(FL, "            if isinstance(value, float) and not math.isfinite(value):\n                # Infinity and NaN cannot be written in Jaqal\n                raise JaqalError(f\"Cannot override {const.name} with {value}\")\n", "")],
+         ("C05.11", "LetFiller.resolve_constant:override-finite"), ("C05",)),
 ]
